@@ -87,11 +87,16 @@ def analyse(name, seed=0):
                        and not z3.is_true(mn.eval(P.enabled(o, at=None), model_completion=True))]
             sch = sch + [(o['thread'], o['idx']) for o in failing[:1]]
             model_info = dict(schedule=sch, cut=P.describe_cut(cut),
-                              found='a non-blocking queue operation runs while its queue is empty (full): ' +
+                              idle_s=max([3.0] + [float(o.get('timeout') or 0) + 3.0 for o in failing[:1]]),
+                              found='an operation that does not wait (get_nowait / timed get / bounded put / timed join) runs while its condition does not hold: ' +
                                     ', '.join(f"{o['thread']}#{o['idx']} {o['kind']} {o['obj']}" for o in failing[:1]))
     last_put = [o for o in r['traces']['main'] if o['kind'] == 'q_put'][-1]
     P2 = po.PO(r['traces'], drop=('main', last_put['idx']))
     res2, _, dt2 = P2.check(P2.deadlock_query())
+    if res2 == 'unsat' and P2.nonblocking_ops():
+        # with operations that do not wait the missing message shows as one of them finding its condition false
+        res2, _, dt3 = P2.check(P2.nonblock_fail_query())
+        dt2 += dt3
     out['seeded_bug_twin'] = res2
     out['stats']['seeded_s'] = round(dt2, 2)
     out['constraints'] = len(P.cons)
@@ -179,7 +184,7 @@ def _case(name):
             print(f'NOTE: session {name}: segment decomposition not established: {sg["problems"][:2]}')
     if out['deadlock'] == 'sat' or out.get('nonblock_fail') == 'sat':
         res.cex.append({'kind': 'schedule', 'session': name, 'seed': common.SEED, 'schedule': model['schedule'], 'cut': model['cut'],
-                        'found': model.get('found', 'deadlock')})
+                        'found': model.get('found', 'deadlock'), 'idle_s': model.get('idle_s', 3.0)})
         res.status = 'cex'
     elif out['deadlock'] != 'unsat' or out.get('nonblock_fail', 'unsat') != 'unsat':
         res.status = 'inconclusive'
